@@ -23,8 +23,9 @@ def evaluate(d, checks=None, tier="quick"):
     outdir = tempfile.mkdtemp(prefix="pyvc-seeded-out-")
     try:
         sh(["rsync", "-a", "--exclude", ".git", "--exclude", "__pycache__", "/repo/", scratch + "/"], check=True)
-        env0 = dict(os.environ, PYTHONPATH="/repo", PYTHONDONTWRITEBYTECODE="1")
-        env1 = dict(os.environ, PYTHONPATH=scratch, PYTHONDONTWRITEBYTECODE="1")
+        # (TMPDIR: whatever a demonstration leaves behind is removed together with the scratch output directory)
+        env0 = dict(os.environ, PYTHONPATH="/repo", PYTHONDONTWRITEBYTECODE="1", TMPDIR=outdir)
+        env1 = dict(os.environ, PYTHONPATH=scratch, PYTHONDONTWRITEBYTECODE="1", TMPDIR=outdir)
         demo = os.path.abspath(os.path.join(d, "demo.py"))
         has_demo = os.path.exists(demo)      # behaviour-preserving edits (expected verdict: held) come without one
         if has_demo:
